@@ -228,8 +228,14 @@ impl<K: TestKey> Gen<K> {
                     Op::Remove { key }
                 }
                 78..=84 if self.cfg.allow_range => {
-                    let (lo, hi) = self.bounds(rng);
-                    Op::RemoveRange { lo, hi }
+                    // now and then everything goes: the empty index (empty snapshot, nothing
+                    // referenced) is a state of its own that later operations start from
+                    if !model.map.is_empty() && rng.chance(1, 5) {
+                        Op::RemoveRange { lo: Bound::Unbounded, hi: Bound::Unbounded }
+                    } else {
+                        let (lo, hi) = self.bounds(rng);
+                        Op::RemoveRange { lo, hi }
+                    }
                 }
                 85..=91 if self.cfg.allow_checkpoint => Op::Checkpoint,
                 92..=99 if self.cfg.allow_reopen => {
